@@ -48,6 +48,9 @@ def families(tier):
             sid = f'y{ybus}-b{before}-q{other_q}-{late}-{cshape}-k{k}-o{"".join(o)}'
             out.append(dict(prop='C05', family='c05.queue_jump', id='c05/' + sid, cfg=cfg, params=dict(ybus=ybus, before=before, k=k),
                             scn=dict(buses=buses, order=o, handlers=hs, main=main, actors=actors, forwards=[], settle=3.0)))
+    # the grammar-generated corpus shared by the bus properties (vsched/gen.py), judged by this property's oracle
+    from .. import gen
+    out += gen.family('C05', tier, params=dict(ybus='?', before=0, k=0), timeouts=(None,), allow_parallel=False)
     return out
 
 
